@@ -248,6 +248,8 @@ def run(chk):
         uneven(chk, exe, rng, 1 if quick else 5)
     if not chk.violations:
         uneven_noisy(chk, exe, rng, 6 if quick else 40)
+    if not chk.violations:
+        many_standards(chk, exe, rng)
     # 3a. rectangular calibrations
     if not chk.violations:
         rectangular(chk, exe, rng, 6 if quick else 30)
@@ -581,6 +583,63 @@ def pvalue_correspondence(chk, exe, rng, broken, count):
         else:
             chk.count('pvalue_same')
     chk.extra['pvalue_mismatches'] = nm
+    # the whole range a calibration can reach: many excess equations (hundreds of standards) and statistics from consistent to grossly
+    # inconsistent.  The p-value is a probability (never NaN, never above 1), it is the chi-square survival function to rounding (to 1e-30 absolutely: below
+    # that no limit a user can set tells values apart), and it is below any limit a user can set when the statistic is far out
+    from scipy import stats
+    ext = []
+    for _ in range(count):
+        n = 2 * rng.choice([rng.randint(1, 40), rng.randint(40, 400), rng.randint(400, 3000)])
+        x2 = rng.choice([n * rng.uniform(0.5, 1.5), n + rng.uniform(-3, 6) * (2 * n) ** 0.5, n + 10 ** rng.uniform(1, 5), 10 ** rng.uniform(2, 5), rng.uniform(1400, 1600)])
+        ext.append((n, max(0.0, x2)))
+    ext += [(2 * k, x) for k in (1, 20, 100, 160, 400, 800) for x in (1490.0, 1500.0, 5400.0, 1e4, 1e5)]
+    el = ['num pvalue %d %s' % (n, vlib.d2h(x2)) for n, x2 in ext]
+    eo, erc, eerr = vlib.run_lines(exe, el)
+    if erc != 0 or len(eo) != len(el):
+        chk.violation('sanitizer-pvalue', 'chisq_pvalue crashed: %s' % eerr[-600:], el[:len(eo) + 1][-1:])
+        return
+    for (n, x2), l, o in zip(ext, el, eo):
+        chk.evaluations += 1
+        p = vlib.h2d(o.split()[1]) if o.startswith('ok') else float('nan')
+        want = float(stats.chi2.sf(x2, n))
+        if not (0.0 <= p <= 1.0 + 1e-12) or not abs(p - want) <= 1e-9 * want + 1e-30:
+            chk.violation('pvalue-range', 'chisq_pvalue(%d degrees of freedom, statistic %.6g) = %r; the chi-square survival function is %.6g (a value that is not a number '
+                          'passes every `p < limit` test: grossly inconsistent data would be accepted)' % (n, x2, p, want), [l])
+            return
+        chk.count('pvalue_survival_ok')
+        chk.distinct.add(('pvalue', n, x2))
+
+
+def many_standards(chk, exe, rng):
+    """a one-port calibration from 200 known reflects (197 excess equations): with noise of the declared size it is accepted, with one
+    standard off by 100 standard deviations it is rejected — the more redundant a calibration is, the better it is checked"""
+    for gross in (None, 7, None, 150):
+        r2 = random.Random(rng.randrange(1 << 30))
+        sc = NoisySc(r2, 'T8', 1, 1, 1, form='m')
+        sc.noise, sc.gross = (1e-3, 0.0), gross
+        sc.begin()
+        sc.lines.append('cal new_set_m_error %d 1 N S %s N' % (sc.n, vlib.d2h(1e-3)))
+        sc.lines.append('cal new_set_pvalue_limit %d %s' % (sc.n, vlib.d2h(0.001)))
+        for k in range(200):
+            g = calsim.rc(r2, 0.6)
+            sc.lines.append('cal make_scalar %d %s' % (sc.c, vlib.c2h(g)))
+            sc.add_reflect(1, 0, gamma=(3 + k, g))
+        sc.solve()
+        isolve = len(sc.lines) - 1
+        sc.lines += ['cal free 0', 'cal live']
+        out, rc, err = vlib.run_lines(exe, sc.lines, timeout=600)
+        chk.evaluations += 1
+        if rc != 0 or len(out) != len(sc.lines):
+            chk.violation('sanitizer-many', 'one-port calibration from 200 reflects: crash / sanitizer report:\n%s' % err[-1200:], sc.lines[:len(out) + 1])
+            return
+        ok = out[isolve].startswith('ok')
+        if gross is not None and ok:
+            chk.violation('gross-many', 'one-port calibration from 200 known reflects, standard %d off by 100 standard deviations: accepted' % gross, sc.lines[:isolve + 1])
+            return
+        if gross is not None and 'EDOM' not in out[isolve]:
+            chk.violation('gross-many-errno', 'inconsistent data rejected with %s instead of EDOM' % out[isolve][:40], sc.lines[:isolve + 1])
+            return
+        chk.count('many_standards_' + ('gross_rejected' if gross is not None else ('accepted' if ok else 'noise_rejected')))
 
 
 def replay(chk, path):
